@@ -34,6 +34,10 @@ def shapes(tier, seed):
         add(node, p.params, p.cons)
     for labs, node, p in templates.unary_sequences(X, sqlprogs.LEAFCOLS, 4, "std", slice_hi=hi, labels=D4):
         add(node, p.params, p.cons)
+    # projections that drop exactly what was calculated last (the calculation is elided and the projection may vanish with it)
+    for labs, node, p in templates.unary_sequences(X, sqlprogs.LEAFCOLS, 3, "std", slice_hi=hi, labels=("calc d", "calc e", "proj -e", "proj -d", "sel a>k", "dedup")):
+        if "proj -e" in labs or "proj -d" in labs:
+            add(node, p.params, p.cons)
     if tier == "thorough":
         for labs, node, p in templates.unary_sequences(X, sqlprogs.LEAFCOLS, 5, "std", slice_hi=hi,
                                                        labels=("sort -a", "proj -b", "proj a", "dedup", "slice s:e", "calc d")):
